@@ -5,9 +5,9 @@ Deductive core (what contracts on pandera's own code can decide):
     DataType.try_coerce          returns coerce(c) when coerce returns; a ParserError of coerce is propagated unchanged; any other
                                  exception becomes a ParserError chained from it whose failure_cases are exactly what
                                  numpy_pandas_coerce_failure_cases(c, type) returns
-    numpy_pandas_coercible       result[i] <=> coerce_value(c[i]) does not raise      (element-wise, same rows)
+    numpy_pandas_coercible       result[i] <=> coerce_value(c[i]) returns, or c[i] is missing and the type can hold a missing value (same rows)
     numpy_pandas_coerce_failure_cases (Series)
-                                 reports exactly the rows whose coerce_value raises (nulls included: ignore_na=False), None if none
+                                 reports exactly the rows flagged not coercible (a missing value only for a type that cannot hold one), None if none
     ArraySchemaBackend.coerce_dtype
                                  no dtype / coerce off -> the argument itself; ParserError -> SchemaError(DATATYPE_COERCION) with the
                                  SAME failure cases, chained
@@ -24,7 +24,7 @@ import z3
 from pandera.errors import ParserError, SchemaError, SchemaErrorReason
 from pyvc import core, types as T
 from pyvc.core import And, Iff, Implies, Not, Or, PyExc, SAny, SBool, cur, py_eq
-from pyvc.heap import Obj
+from pyvc.heap import ListObj, Obj
 from pyvc.interp import OtherException
 from pyvc.spec import Contract, resolve_target
 from pyvc.theories import pandas_lite as PL
@@ -98,8 +98,51 @@ PandasTryCoerce = _try_coerce("pandera.engines.pandas_engine:DataType.try_coerce
 NumpyTryCoerce = _try_coerce("pandera.engines.numpy_engine:DataType.try_coerce", "pandera.engines.numpy_engine:DataType", "type", propagate_parser_error=False)
 
 
+class OneMissingValue:
+    """pd.Series([None], dtype=object): the probe series holding one missing value"""
+
+    __pyvc_symbolic__ = True
+
+
+class NullProbe:
+    """data_type.coerce applied to the one-missing-value series: whether the type can HOLD a missing value is a fact about the type
+    (one answer per type): it keeps it missing, turns it into a value (numpy bool: False), or refuses (numpy int64)."""
+
+    __pyvc_symbolic__ = True
+
+    def __init__(self):
+        self.answer = None
+        self.other_calls = 0
+
+    def __call__(self, data):
+        if not isinstance(data, OneMissingValue):
+            self.other_calls += 1
+            raise core.Unsupported("data_type.coerce of something other than the one-missing-value probe")
+        if self.answer is None:
+            self.answer = ["keeps_it_missing", "turns_it_into_a_value", "refuses"][cur().choose([("keeps_it_missing", None), ("turns_it_into_a_value", None), ("refuses", None)], "type coerces a missing value")]
+        if self.answer == "refuses":
+            I = cur().ghost["interp"]
+            raise PyExc(I.make_exc(TypeError, "cannot convert a missing value"))
+        return _Coerced(self.answer == "keeps_it_missing")
+
+
+class _Coerced:
+    __pyvc_symbolic__ = True
+
+    def __init__(self, missing):
+        self.missing_kept = missing
+
+    def isna(self):
+        return self
+
+    def all(self):
+        return self.missing_kept
+
+
 class Coercible(Contract):
-    """numpy_pandas_coercible: element-wise, result[i] <=> coerce_value(series[i]) does not raise."""
+    """numpy_pandas_coercible: element-wise.  C10: "fails with a parser error whose failure cases are exactly the input elements that
+    cannot be converted individually ... nulls stay null where the type can represent them":
+        result[i]  <=>  coerce_value(series[i]) returns,  or  element i is the missing value and the type can hold a missing value."""
 
     target = "pandera.engines.utils:numpy_pandas_coercible"
     raises = (TypeError,)
@@ -110,8 +153,23 @@ class Coercible(Contract):
 
         def dtype_model(I, cls, x):
             dt = T.Ref(None, coerce_value=T.Callback(T.Any)).fresh("data_type")
+            probe = NullProbe()
+            dt.attrs["coerce"] = probe
+            dt.attrs0["coerce"] = probe
             cur().ghost["dt"] = dt
+            cur().ghost["null_probe"] = probe
             return dt
+
+        import pandas as pd
+
+        orig_series = I.models.get(id(pd.Series))
+
+        def series_ctor(I_, data=None, *a, **kw):
+            if isinstance(data, (list, ListObj)) and len(data) == 1 and data[0] is None:
+                return OneMissingValue()
+            return orig_series(I_, data, *a, **kw)
+
+        I.models[id(pd.Series)] = series_ctor
 
         f = pandas_engine.Engine.__dict__["dtype"]
         I.models[id(f.__func__)] = dtype_model
@@ -137,8 +195,50 @@ class Coercible(Contract):
         raised = len([e for e in cur().events if e[0] == "callback_raised"]) > nraised0
         out["coerce_value_applied_to_the_element"] = len(cb.calls) == n0 + 1 and bool(
             z3.is_true(z3.simplify(core.as_z3_bool(py_eq(cb.calls[-1][0][0], series.at(i))))))
-        out["flag_true_iff_coerce_value_returned"] = (v is True and not raised) or (v is False and raised)
+        probe = cur().ghost["null_probe"]
+        holds_missing = probe.answer == "keeps_it_missing"
+        flag = v if isinstance(v, SBool) else SBool(z3.BoolVal(bool(v)))
+        if not raised:
+            out["an_element_that_converts_is_coercible"] = flag
+        else:
+            # the element does not convert by itself: coercible exactly when it is the missing value and the type can hold one
+            missing = SBool(series.null(i))
+            if probe.answer is None:
+                # the type was never asked: only sound when the element is not the missing value
+                out["a_missing_element_is_coercible_iff_the_type_can_hold_a_missing_value"] = And(Not(flag), Not(missing))
+            else:
+                out["a_missing_element_is_coercible_iff_the_type_can_hold_a_missing_value"] = Iff(flag, And(missing, holds_missing))
         return out
+
+
+def _coercible_replay(self, rec):
+    def thunk():
+        """a missing value next to an uncoercible one, for types that can hold a missing value and for one that cannot"""
+        import warnings
+
+        import pandas as pd
+        import pandera as pa
+        from pandera.engines import pandas_engine as pe
+
+        warnings.simplefilter("ignore")
+        obs, bad = {}, False
+        cases = (("Int64", ["1", None, "x"], ["x"]), ("boolean", [True, None, "x"], ["x"]), (pd.CategoricalDtype(["a", "b"]), ["a", None, "x"], ["x"]),
+                 ("float64", ["1", None, "x"], ["x"]), ("int64", ["1", None, "x"], [None, "x"]))
+        for dtype, data, want in cases:
+            try:
+                pe.Engine.dtype(dtype).try_coerce(pd.Series(data, dtype=object))
+                got = "coerced"
+            except pa.errors.ParserError as e:
+                got = e.failure_cases["failure_case"].tolist()
+            if got != want:
+                bad = True
+                obs[f"try_coerce({data}) to {dtype}: failure cases"] = f"{got}, expected {want}"
+        return bad, obs or "a missing value is a failure case only for types that cannot hold one"
+
+    return thunk
+
+
+Coercible.concretize = _coercible_replay
 
 
 def _coercible_standin(seed=0, tier="quick"):
@@ -176,7 +276,17 @@ def _coercible_standin(seed=0, tier="quick"):
                 except Exception:  # noqa: BLE001
                     return False
 
-            want = [ok(x) for x in vals]
+            def holds_missing():
+                try:
+                    return bool(dt.coerce(pd.Series([None], dtype=object)).isna().all())
+                except Exception:  # noqa: BLE001
+                    return False
+
+            def is_missing(x):
+                m = pd.isna(x)
+                return isinstance(m, bool) and m
+
+            want = [ok(x) or (is_missing(x) and holds_missing()) for x in vals]
             try:
                 got = [bool(b) for b in numpy_pandas_coercible(s, dt)]
             except Exception as e:  # noqa: BLE001
